@@ -267,8 +267,8 @@ def sibling(R, rule, facts, path_a, path_b, subs=V12, allowed=(), facts_b=None):
     fb = (facts_b or facts).fn(path_b)
     if fa.hir is None or fb.hir is None:
         raise AnchorLost("no HIR for %s / %s" % (path_a, path_b))
-    sa = SK.rename(SK.skel(fa.hir["body"]), subs)
-    sb = SK.rename(SK.skel(fb.hir["body"]), subs)
+    sa = SK.linearize(SK.rename(SK.skel(fa.hir["body"]), subs))
+    sb = SK.linearize(SK.rename(SK.skel(fb.hir["body"]), subs))
     ds = SK.diff(sa, sb)
     allowed = set(allowed)
     bad = [d for d in ds if (d[1], d[2]) not in allowed]
